@@ -61,11 +61,31 @@ func main() {
 	list := flag.Bool("list", false, "list obligations")
 	noEvidence := flag.Bool("noevidence", false, "do not write evidence")
 	timeoutS := flag.Int("timeout", 0, "per-query timeout seconds (default by tier)")
+	replayPath := flag.String("replay", "", "replay a counterexample file natively")
+	noReplay := flag.Bool("noreplay", false, "do not run native replays")
 	flag.StringVar(&repoDir, "repo", "/repo", "repository root")
 	flag.StringVar(&verifDir, "verif", "/verif", "verif root")
 	flag.Parse()
 	start := time.Now()
 	seed, _ := strconv.ParseInt(os.Getenv("VERIF_SEED"), 10, 64)
+	runSeed = seed
+	if *replayPath != "" {
+		cx, err := readCex(*replayPath)
+		if err != nil {
+			fmt.Println("MACHINERY-ERROR replay:", err)
+			os.Exit(2)
+		}
+		rr := replayNative(cx, *replayPath)
+		fmt.Printf("replay %s: %s %s\n", *replayPath, rr.Status, rr.Detail)
+		if rr.Status == "reproduced" {
+			fmt.Printf("VIOLATION property=%s replay=%s\n", cx.Property, *replayPath)
+			os.Exit(1)
+		}
+		if rr.Status == "not-reproduced" {
+			os.Exit(0)
+		}
+		os.Exit(2)
+	}
 	if t := os.Getenv("VERIF_TIER"); t != "" && *tier == "" {
 		*tier = t
 	}
@@ -221,6 +241,7 @@ func main() {
 			if r.Err == "" {
 				r.discharge(qTimeout, 8)
 			}
+			r.refuteWithoutContracts()
 			n := atomic.AddInt64(&done, 1)
 			if verbose {
 				fmt.Printf("[run %d/%d] %s exec=%.1fs obs=%d err=%q\n", n, len(runs), r.Name, r.ExecSecs, len(r.Obs), r.Err)
@@ -241,6 +262,7 @@ func main() {
 	contractsProved := map[string]bool{}
 	outDir := filepath.Join(verifDir, "out", *prop)
 	cexN := 0
+	nReplayed := 0
 	for _, r := range runs {
 		for k, v := range r.Encoded {
 			encoded[r.Ld.config+":"+shortName(k)] = v
@@ -258,6 +280,9 @@ func main() {
 		for _, ob := range r.Obs {
 			nOb++
 			full := r.Name + " :: " + ob.Name
+			if verbose {
+				fmt.Printf("  [%s] %s  (%s %.2fs) %s\n", ob.Verdict, full, ob.Solver, ob.Secs, ob.Note)
+			}
 			if ob.Solver != "simplifier" && ob.Solver != "" {
 				h := sha256.Sum256([]byte(fmt.Sprintf("%d/%d", ob.Hyp.id, ob.Goal.id)))
 				distinct[string(h[:8])] = true
@@ -278,8 +303,23 @@ func main() {
 				if !isKnown {
 					cexN++
 					path := filepath.Join(outDir, fmt.Sprintf("cex_%d.json", cexN))
-					writeCex(path, *prop, r, ob)
-					violations = append(violations, fmt.Sprintf("VIOLATION property=%s replay=%s obligation=%q", *prop, path, full))
+					cx := writeCex(path, *prop, r, ob)
+					note := ""
+					if !*noReplay && !cx.Abstract {
+						rr := replayNative(cx, path)
+						note = " replay=" + rr.Status
+						if rr.Status == "not-reproduced" || rr.Status == "error" {
+							// the model does not reproduce against the compiled real code: the encoding is suspect, not the code
+							nRef--
+							nInc++
+							inconcl = append(inconcl, fmt.Sprintf("obligation=%q reason=counterexample %s natively (%s)", full, rr.Status, rr.Detail))
+							break
+						}
+						nReplayed++
+					} else if cx.Abstract {
+						note = " replay=abstract-model(contract/stub outputs are solver-chosen; not natively replayable)"
+					}
+					violations = append(violations, fmt.Sprintf("VIOLATION property=%s replay=%s obligation=%q backend=%s%s", *prop, path, full, ob.Solver, note))
 				}
 			default:
 				allOK = false
